@@ -206,6 +206,9 @@ def run_route(case, path):
                 # the existing file holds a non-prefix subset of a complete log: delete the chosen E/L/V/I records, run again
                 punch_file(case, path)
                 res = Experiment(eval_tuples=triples, description=case.get("desc")).run(path, processes=1, seed=case.get("seed", 1))
+            if path is not None and dup_ops(case):
+                dup_file(case, path)
+                res = Experiment(eval_tuples=triples, description=case.get("desc")).run(path, processes=1, seed=case.get("seed", 1))
             if path is not None and case.get("shuffle") is not None:
                 # the records reached the log in another order (several worker processes): same records, permuted; then a restored run on it
                 shuffle_file(case, path)
@@ -307,6 +310,7 @@ def decoy_case(case):
     c["rows"] = [[t, [decoy_val(r) for r in rows]] for t, rows in c["rows"]]
     c["decoy"] = False
     c["shuffle"] = None
+    c["dup"] = []
     c["punch"] = []
     c["phases"] = 1
     return c
@@ -336,7 +340,7 @@ def run_impl(case):
     """all three routes; returns dict route -> canonical result or {"raised": name}"""
     from coba.results import Result
     out, logs = {}, {}
-    r1, x1, m1, _ = run_route(case, None)
+    r1, x1, m1, _ = run_route(effective_case(case) if dup_ops(case) else case, None)
     out["nofile"] = canon_result(r1) if r1 is not None else {"raised": x1}
     logs["nofile"] = m1
     logs["index"] = {}
@@ -520,6 +524,25 @@ def unlean_str(s):
     if not any(ord(c) >= 0xE000 for c in s):
         return s
     return "".join(chr(ord(c) - 0x800) if ord(c) >= 0xE000 else c for c in s)
+
+
+def with_dups(case, p1, txs):
+    """the records `dup_file` appends, as transactions: the log then holds two records for those ids"""
+    ops = dup_ops(case)
+    if not ops:
+        return p1, txs
+    eid, lid, vid = assign_ids(case)
+    extra = []
+    cur_rows = {tuple(t): r for t, r in case["rows"]}
+    for k, a, b in ops:
+        if k == "I":
+            extra.append({"t": "T4", "ids": [eid[b[0]], lid[b[1]], vid[b[2]]], "rows": cur_rows.get(tuple(a), [])})
+            cur_rows[tuple(b)] = cur_rows.get(tuple(a), [])
+        elif k == "E":
+            extra.append({"t": "T1", "id": eid[b], "p": ["d", safe_params("env", case["envs"][a])]})
+        else:
+            extra.append({"t": "T2", "id": lid[b], "p": ["d", safe_params("lrn", case["lrns"][a])]})
+    return p1, txs + extra
 
 
 def lean_key(k):
@@ -1069,6 +1092,168 @@ def gen_rows(rng, prone, tags):
     return rows
 
 
+# ------------------------------------------------------------------ phase 3: `minimize` alone on boundary floats
+def boundary_floats(seed, n):
+    """n finite doubles around every boundary of round(v*10**5)/10**5: halfway cases at the 5th decimal (exact dyadic ties, decimal ties and
+    their neighbours), the 1e16 / 2**52 / 2**53 neighbourhood, subnormals and tiny values, huge magnitudes (v*10**5 overflows), signed zeros"""
+    import struct
+    from core.prng import Rng
+    rng = Rng(seed, "C07-floats")
+
+    def nudge(x, k):
+        for _ in range(abs(k)):
+            x = math.nextafter(x, math.inf if k > 0 else -math.inf)
+        return x
+    out = []
+    while len(out) < n:
+        fam = rng.below(9)
+        if fam == 0:      # decimal ties x.xxxxx5 and their float neighbours
+            x = nudge((2 * rng.randint(-10 ** rng.randint(1, 9), 10 ** rng.randint(1, 9)) + 1) * 5 / 1000000, rng.randint(-2, 2))
+        elif fam == 1:    # exact dyadic ties: (k+1/2)/10**5 is never dyadic, but m/2**j with v*1e5 exactly halfway after float rounding
+            x = nudge((rng.randint(-10 ** 7, 10 ** 7) + 0.5) / 100000, rng.randint(-3, 3))
+        elif fam == 2:    # 1e16 / 2**52 / 2**53 neighbourhood (spacing 1 or 2; v*1e5 beyond 2**53)
+            x = nudge(rng.choice([1e16, 2.0 ** 52, 2.0 ** 53, 2.0 ** 51, 1e15, 4503599627370495.5, 2.0 ** 36, 90071992547.40991]), rng.randint(-40, 40)) * rng.choice([1, -1])
+        elif fam == 3:    # subnormals and tiny
+            x = rng.choice([5e-324, 2.2250738585072014e-308, 1e-310, 1e-300, 4.9e-6, 5e-6, 5.000000000000001e-06, 4.999999999999999e-06, 1.5e-5]) * rng.choice([1, -1, rng.randint(1, 9)])
+        elif fam == 4:    # huge
+            x = rng.choice([1e300, 1.7976931348623157e308, 1.8e303, 1e304, 2.0 ** 1000, 1e22, 123456789012345.67]) * rng.choice([1, -1])
+        elif fam == 5:    # random bit patterns (finite)
+            x = struct.unpack("<d", struct.pack("<Q", rng.u64()))[0]
+            if not math.isfinite(x):
+                continue
+        elif fam == 6:    # results of a first rounding (idempotence): k/1e5
+            x = rng.randint(-10 ** rng.randint(1, 15), 10 ** rng.randint(1, 15)) / 100000
+        elif fam == 7:    # carries 0.999995, 9.999995 …
+            x = nudge(10 ** rng.randint(0, 8) - rng.choice([5e-6, 4.9e-6, 5.1e-6, 1e-5]), rng.randint(-2, 2))
+        else:
+            x = rng.choice([0.0, -0.0, 0.5, 1.0, -1.0, 2.5, 1e-5, 0.1, 0.2 + 0.1])
+        out.append(x)
+    return out
+
+
+def eval_floats(case, driver):
+    """(A) coba.utilities.minimize(x) on each boundary float = the Lean `minimize round5` (the model's rational names the nearest double);
+    (B) the law `minimize(minimize(x)) == minimize(x)` on the real code, also for the floats nested in a list/tuple/dict"""
+    from coba.utilities import minimize
+    xs = boundary_floats(case["floats"], case.get("count", 2000))
+    fails, tags = [], ["float-stream"]
+    real = [minimize(x) for x in xs]
+    nested = minimize({"a": [xs[0], (xs[1], {"b": xs[2]})], "c": tuple(xs[3:6])})
+    for x, r in zip(xs, real):
+        r2 = minimize(r)
+        if not (r2 == r and type(r2) is type(r)) and not (r2 == r):
+            fails.append(F("B", "minimize is not idempotent on %r: minimize(x)=%r, minimize(minimize(x))=%r" % (x, r, r2), "minimize-not-idempotent"))
+            break
+    if minimize(nested) != nested:
+        fails.append(F("B", "minimize is not idempotent on a nested value built from %r" % (xs[:6],), "minimize-not-idempotent:nested"))
+    want_nested = {"a": [real[0], [real[1], {"b": real[2]}]], "c": list(real[3:6])}
+    flat = lambda d: [d["a"][0], d["a"][1][0], d["a"][1][1]["b"]] + list(d["c"])
+    same = isinstance(nested, dict) and isinstance(nested.get("a"), list) and isinstance(nested.get("c"), list) and len(nested["c"]) == 3 and all(
+        a == b or (has_tie(["f", repr(x)]) and abs(Fraction(a) - Fraction(b)) <= Fraction(100001, 10 ** 10)) for a, b, x in zip(flat(nested), flat(want_nested), xs[:6]))
+    if not same:
+        fails.append(F("B", "minimize treats nested floats differently from top-level ones: %r vs %r" % (nested, want_nested), "minimize-nested-differs"))
+    for x, r in zip(xs, real):
+        # the documented normalisation, directly: integral floats become ints, others are rounded to 5 decimals
+        if x.is_integer():
+            if not (isinstance(r, int) and r == x):
+                fails.append(F("B", "minimize(%r) = %r, expected the int" % (x, r), "minimize-integral"))
+                break
+        elif abs(Fraction(r) - Fraction(x)) > Fraction(1, 200000) + abs(Fraction(x)) * Fraction(1, 2 ** 50) + Fraction(math.ulp(float(r)) if isinstance(r, float) else 0):
+            fails.append(F("B", "minimize(%r) = %r is not x rounded to 5 decimals" % (x, r), "minimize-rounding"))
+            break
+    model = None
+    if driver is not None:
+        ans = driver.ask({"op": "minimize", "vals": [lean_val(["f", repr(x)]) for x in xs]})
+        bad = 0
+        for x, r, m, m2 in zip(xs, real, ans["min"], ans["min2"]):
+            mv = Fraction(m[1], m[2])
+            ok = (float(mv) == float(r)) if m[2] != 1 else (mv == Fraction(r))
+            if not ok and has_tie(["f", repr(x)]) and abs(mv - Fraction(r)) <= Fraction(100001, 10 ** 10):
+                ok = True       # at a rounding tie either neighbour is a correct rounding (e.g. round(v,5) instead of round(v*P)/P)
+                tags.append("float-stream:tie-tolerance-used")
+            if not ok:
+                bad += 1
+                if bad <= 2:
+                    fails.append(F("A", "minimize(%r): implementation %r, Lean round5 model %s" % (x, r, mv), "A:minimize-float"))
+            if m != m2:
+                fails.append(F("C", "model: minimize round5 is not idempotent on %r" % (x,), "C:minimize-idempotent"))
+                break
+        model = {"n": len(xs)}
+    return {"fails": fails, "nontrivial": True, "tags": tags, "impl": {"n": len(xs), "sample": [repr(r) for r in real[:5]]}, "model": model}
+
+
+# ------------------------------------------------------------------ phase 3: ids recorded more than once
+def dup_ops(case):
+    """usable duplicate operations: ['I', src, dst] copies the interaction record of triple src under the ids of triple dst (both completed);
+    ['E'|'L', src, dst] copies the params record of component src under the id of dst"""
+    fail = set(map(tuple, case.get("fail", [])))
+    tris = [tuple(t) for t in case["triples"]]
+    eid, lid, vid = assign_ids(case)
+    out = []
+    for op in case.get("dup") or []:
+        k, a, b = op
+        if k == "I" and tuple(a) in tris and tuple(b) in tris and tuple(a) not in fail and tuple(b) not in fail and tuple(a) != tuple(b):
+            out.append(op)
+        elif k == "E" and a in eid and b in eid and a != b:
+            out.append(op)
+        elif k == "L" and a in lid and b in lid and a != b:
+            out.append(op)
+    return out
+
+
+def merge_params(kind, dst, src):
+    """tagged params dict after `rows[id].update(...)` of dst's record, then src's"""
+    pairs = [list(kv) for kv in safe_params(kind, dst)]
+    for k, v in safe_params(kind, src):
+        hit = [p for p in pairs if json_key(p[0]) == json_key(k)]
+        if hit:
+            hit[0][1] = v
+        else:
+            pairs.append([k, v])
+    return ["d", pairs]
+
+
+def effective_case(case):
+    """the experiment whose uninterrupted run must give the same Result as the log with the duplicated records"""
+    c = json.loads(json.dumps(case))
+    for k, a, b in dup_ops(case):
+        if k == "I":
+            src = [r for t, r in c["rows"] if list(t) == list(a)]
+            c["rows"] = [[t, (json.loads(json.dumps(src[0])) if src and list(t) == list(b) else r)] for t, r in c["rows"]]
+        elif k == "E":
+            c["envs"][b] = dict(c["envs"][b], params=merge_params("env", c["envs"][b], c["envs"][a]))
+        elif k == "L":
+            c["lrns"][b] = dict(c["lrns"][b], params=merge_params("lrn", c["lrns"][b], c["lrns"][a]))
+    c["dup"] = []
+    return c
+
+
+def dup_file(case, path):
+    """append copies of records under other ids (the log then holds two records for those ids)"""
+    import gzip
+    eid, lid, vid = assign_ids(case)
+    opener = gzip.open if is_gzip_name(path) else open
+    with opener(path, "rb") as f:
+        lines = [ln for ln in f.read().split(b"\n") if ln.strip()]
+    recs = [json.loads(ln.decode("utf-8")) for ln in lines]
+    extra = []
+    cur = list(recs)
+    for k, a, b in dup_ops(case):
+        if k == "I":
+            ia, ib = [eid[a[0]], lid[a[1]], vid[a[2]]], [eid[b[0]], lid[b[1]], vid[b[2]]]
+            src = [r for r in cur if r and r[0] == "I" and r[1] == ia]
+            if src:
+                extra.append(["I", ib, src[-1][2]]); cur.append(extra[-1])
+        else:
+            ids = eid if k == "E" else lid
+            src = [r for r in cur if r and r[0] == k and r[1] == ids[a]]
+            if src:
+                extra.append([k, ids[b], src[0][2]]); cur.append(extra[-1])
+    with opener(path, "ab") as f:
+        for r in extra:
+            f.write((json.dumps(r, separators=(",", ":")) + "\n").encode("utf-8"))
+
+
 # model variants: encoder pinned/repaired (str-key collision) x reader pinned/repaired (per-cell tuples) x log without/with `_n` ("S" = without)
 COMBOS = ("ffS", "ftS", "tfS", "ttS", "ff", "ft", "tf", "tt")
 
@@ -1083,12 +1268,15 @@ class C07(Property):
             "(ragged field sets, str/int/bool/None/float/tuple field names, None, bools, ints, floats incl. decimal ties at the 5th decimal, NaN/inf, -0.0, unicode/newline strings, "
             "nested lists/tuples/dicts) and whose components carry generated params; it is run through Experiment.run without a file, with a plain or .gz file (fresh, or "
             "restored after a first run in which some evaluations failed, or restored from a complete log out of which PRNG-chosen E/L/V/I records were deleted - a non-prefix subset) "
-            "under result-file names of several shapes (x.log, x.log.gz, x.gz.bak, a.gz.d/x.log, names with spaces/unicode, .GZ) and Result.from_file. Non-trivial: at least one completed triple with >= 2 rows and >= 2 distinct fields. "
+            "or whose records were permuted, or to which copies of records were appended under other ids so that ids are recorded twice) under result-file names of several shapes (x.log, x.log.gz, x.gz.bak, a.gz.d/x.log, names with spaces/unicode, .GZ) and Result.from_file. Non-trivial: at least one completed triple with >= 2 rows and >= 2 distinct fields. "
             "Distinct = distinct canonical JSON of the case.")
     trusted_base = [
         "json text codec (json.dumps/json.loads), file write/read and gzip: modelled as the identity on values modulo tuple->list and key->string (jsonify); checked on every case by (A)",
         "float <-> shortest decimal repr (float.__repr__ / float()): the model's k/10^5 stands for the double nearest to it",
         "binary64 product v*10**5 modelled by `fl` (round to nearest even, normal range; proved exact on 53-bit significands), validated by (A) incl. decimal and dyadic ties",
+        "assumed law about floats, stated exactly: for every finite double v the real `round(v*10**5)/10**5` equals the double nearest to `rhe(fl(v·10^5))/10^5` (fl = IEEE-754 binary64 "
+        "multiplication result, rhe = Python round) and `float.__repr__`/`float()` round-trip; tested ALONE on 12 000 boundary floats per run (corpus cases {'floats': seed}: 5th-decimal ties and their "
+        "neighbours, 2^51..2^53 / 1e16 neighbourhood, subnormals, huge magnitudes, random bit patterns, carries) together with idempotence of the real minimize",
         "reward objects: the registered name and `__getstate__()` of L1Reward/BinaryReward/HammingReward/DiscreteReward are supplied by the harness (reward_form); the model builds {name: state} itself",
         "Table: only `columns` and `to_dicts()` (Missing kept apart from None) are modelled (padTable); index structures (_indexes/_lohis) are C17's; Result.__init__ caches are not observable through the tables",
         "MakeTasks/ProcessTasks/SafeEnvironment/SafeLearner/SafeEvaluator (which transactions are emitted) are mirrored by the harness, not by the Lean model",
@@ -1104,6 +1292,7 @@ class C07(Property):
         "first_row_tuple_partial": "the code before aa4bb4c converted a column by looking at its first row only; equal to the per-cell conversion only when firstRowDecides (first_row_tuple_counterexample; fixed in /repo)",
         "packAsIs_partial": "the code before 4cf485f packed correctly only when str() is injective on the field names of the transaction (packAsIs_collision_counterexample; fixed in /repo)",
         "roundtrip_normalise_partial": "a log without `_n` (current /repo, before fixes/C07-rows-without-fields.diff): a transaction whose rows have no field at all leaves no row in the table (empty_rows_dropped_counterexample, C07-F5); `roundtrip_normalise` is the full-strength theorem for the repaired code",
+        "first_row_tuple_partial / packAsIs_partial / roundtrip_normalise_partial": "describe code states that are history now (aa4bb4c, 4cf485f, 6c776fe committed); the full-strength theorems are roundtrip_normalise, run_spec, interactions_last_wins, params_union",
         "minimize_idempotent_partial": "superseded by minimize_idempotent_full (phase 2); kept as the bounded corollary",
     }
 
@@ -1129,7 +1318,20 @@ class C07(Property):
         if rng.chance(0.2):
             case["fail"] = rng.sample(triples, 1)
         case["decoy"] = rng.chance(0.3)
-        mode = rng.wchoice([(25, "fresh"), (30, "two"), (25, "punch"), (20, "shuffle")])
+        mode = rng.wchoice([(20, "fresh"), (25, "two"), (25, "punch"), (15, "shuffle"), (15, "dup")])
+        if mode == "dup":
+            # the log holds two records for some ids: a copy of another triple's / component's record is appended
+            ops = []
+            done = [t for t in triples if t not in case["fail"]]
+            if len(done) >= 2:
+                a, b = rng.sample(done, 2)
+                ops.append(["I", a, b])
+            es = sorted({t[0] for t in triples}); ls = sorted({t[1] for t in triples})
+            if len(es) >= 2 and rng.chance(0.6):
+                a, b = rng.sample(es, 2); ops.append(["E", a, b])
+            if len(ls) >= 2 and rng.chance(0.6):
+                a, b = rng.sample(ls, 2); ops.append(["L", a, b])
+            case["dup"] = ops
         if mode == "shuffle":
             case["shuffle"] = rng.choice([-1, -1, rng.randint(0, 10 ** 6), rng.randint(0, 10 ** 6)])
         if mode == "two":
@@ -1215,6 +1417,12 @@ class C07(Property):
                 cs.append(dict(json.loads(json.dumps(g2)), fname=shape, gz=(shape == "gz"), shuffle=sh))
         cs.append(base([D((S(n), L(I(1), I(2)))) for n in ("past_rewards", "summary rewards", "eval_rewards", "rewards2", "Rewards", "rewards")]
                        + [D((S("past_rewards"), T(I(3))), (S("my index"), T()), (S("index2"), L(I(1))), (S("environment_id2"), T(I(0))), (S("_n"), L(I(5))), (S("_packed"), T()))], fname="gz", gz=True))
+        # phase 3: `minimize` alone on boundary floats (6 x 2000 per run) and logs with ids recorded twice
+        for sd in range(6):
+            cs.append({"floats": sd, "count": 2000})
+        for shape in ("plain", "gz"):
+            for ops in ([["I", [0, 0, 0], [2, 1, 0]]], [["E", 2, 0]], [["L", 1, 0]], [["I", [2, 0, 0], [0, 0, 0]], ["I", [0, 1, 0], [0, 0, 0]], ["E", 0, 1], ["E", 2, 1], ["L", 0, 1]]):
+                cs.append(dict(json.loads(json.dumps(g2)), fname=shape, gz=(shape == "gz"), dup=ops))
         # result-file names of every shape (DiskSink and DiskSource must agree on what is gzip)
         for shape in FNAME_SHAPES:
             for ph in (1, 2):
@@ -1235,7 +1443,13 @@ class C07(Property):
     # ---- evaluation
     def evaluate(self, case, driver):
         tags = []
+        if "floats" in case:
+            return eval_floats(case, driver)
         impl, logs = run_impl(case)
+        shown = case
+        if dup_ops(case):
+            tags.append("dup:" + "+".join(sorted({op[0] for op in dup_ops(case)})))
+            case = effective_case(case)      # (B): the log with duplicated records must equal the uninterrupted run of this experiment
         fails = check_property(case, impl)
         for route, probs in sorted((logs.get("index") or {}).items()):
             for sfx, text in probs[:3]:
@@ -1299,7 +1513,7 @@ class C07(Property):
         if outside:
             tags.append("A:skipped-outside-modelled-mechanism")     # Result.__init__'s full_name is not part of the model
         if driver is not None and not outside:
-            p1, txs = transactions(case)
+            p1, txs = with_dups(shown, *transactions(shown))
             info = ["d", [[S("n_learners"), ["i", len(lid)]], [S("n_environments"), ["i", len(eid)]],
                           [S("description"), (["s", case["desc"]] if case.get("desc") is not None else None)], [S("seed"), ["i", case.get("seed", 1)]]]]
             ans = driver.ask({"info": lean_val(info), "txs": [lean_tx(t) for t in txs], "phase1": None if p1 is None else [lean_tx(t) for t in p1]})
@@ -1356,6 +1570,18 @@ class C07(Property):
                     elif irows != mrows and not (ties and eq_mod_ties(irows, mrows)):
                         fails.append(F("A", "padded rows of %s differ: implementation %s, model %s" % (name, json.dumps(irows)[:300], json.dumps(mrows)[:300]), "A:padded:rows:" + name))
                 tags.append("A:padded-tables-compared")
+            # (C) phase 3: the model's tables = `specInteractionsLW` (last record of a triple wins) and `unionParams` (records of an id are merged)
+            ttr = combos["tt"]["nofile"]
+            if "raised" not in ttr:
+                if ttr["ints"] != [canon_model_row(r) for r in ans["specLW"]]:
+                    fails.append(F("C", "model interactions differ from specInteractionsLW", "C:specLW"))
+                tbl = {"E": ("envs", "environment_id"), "L": ("lrns", "learner_id"), "V": ("vals", "evaluator_id")}
+                for tag, i, row in ans["unions"]:
+                    name, idcol = tbl[tag]
+                    got = [r for r in ttr[name] if [idcol, ["q", i, 1]] in r]
+                    want = canon_model_row([[idcol, ["q", i, 1]]] + [kv for kv in row if kv[0] != idcol])
+                    if len(got) != 1 or got[0] != want:
+                        fails.append(F("C", "model %s row of id %s differs from unionParams" % (name, i), "C:unionParams"))
             # (C): the model of the repaired code meets the specification (theorems roundtrip_normalise / params_roundtrip at run time),
             #      and the Lean specification meets the Python oracle of the documented normalisation
             tt = combos["tt"]["nofile"]
@@ -1386,6 +1612,10 @@ class C07(Property):
     def shrink(self, case):
         def cp(c):
             return json.loads(json.dumps(c))
+        if "floats" in case:
+            if case.get("count", 2000) > 50:
+                c = cp(case); c["count"] = case.get("count", 2000) // 2; yield c
+            return
         tris = case["triples"]
         # drop components no triple refers to (renumbering the rest)
         for kind, pos in (("envs", 0), ("lrns", 1), ("vals", 2)):
@@ -1429,6 +1659,14 @@ class C07(Property):
             c = cp(case); c["phases"] = 1; c["skip1"] = []; yield c
         if case.get("decoy"):
             c = cp(case); c["decoy"] = False; yield c
+        if "floats" in case:
+            if case.get("count", 2000) > 50:
+                c = cp(case); c["count"] = case.get("count", 2000) // 2; yield c
+            return
+        if case.get("dup"):
+            c = cp(case); c["dup"] = []; yield c
+            for i in range(len(case["dup"])):
+                c = cp(case); c["dup"].pop(i); yield c
         if case.get("shuffle") is not None:
             c = cp(case); c["shuffle"] = None; yield c
             if case["shuffle"] != -1:
@@ -1469,6 +1707,9 @@ class C07(Property):
                         c = cp(case); c["rows"][ti][1][ri][1][ki][1] = ["i", 1]; yield c
 
     def snippet(self, case):
+        if "floats" in case:
+            return ("import sys; sys.path[:0] = [%r, '/verif/harness']\nfrom props.c07 import boundary_floats\nfrom coba.utilities import minimize\n"
+                    "for x in boundary_floats(%d, %d):\n    r = minimize(x)\n    assert minimize(r) == r, (x, r)\n" % (os.environ.get("COBA_REPO", "/repo"), case["floats"], case.get("count", 2000)))
         return ("import sys, json; sys.path[:0] = [%r, '/verif/harness']\n"
                 "from props.c07 import run_impl, check_property\n"
                 "case = json.loads(%r)\n"
